@@ -57,7 +57,40 @@ pub fn count_raw(c: i16, ns: u64) -> i128 {
 #[inline]
 pub fn mk(v: i128) -> Duration {
     let (c, n) = canon(v);
+    if (v as u64 ^ (v >> 64) as u64).wrapping_mul(0x9E37_79B9_7F4A_7C15) >> 58 == 0 {
+        pretouch_duration(v);
+    }
     Duration::from_parts(c, n)
+}
+
+/// History diversity for durations (the counterpart of `props::c05::pretouch` for epochs): one count in 64, chosen by a hash
+/// of the count (the same ones in every run), is preceded by read-only calls nobody judges on a *related* duration - the count
+/// itself, its negation (which `==` cannot tell from it within a century), a neighbour 1 ns / one century away. The library
+/// keeps no state between calls today, so this changes nothing on the unchanged tree; a memo ("the value decomposed /
+/// printed / converted last") with an incomplete or `==`-compared key answers the monitored call from what the touch left.
+#[cold]
+fn pretouch_duration(v: i128) {
+    let h = (v as u64 ^ (v >> 64) as u64).wrapping_mul(0xD6E8_FEB8_6659_FD93);
+    let t = match (h >> 40) % 7 {
+        0 | 1 => v,
+        2 => -v,
+        3 => v + 1,
+        4 => v - 1,
+        5 => v + NPC,
+        _ => -v - 1,
+    };
+    if !(MIN_NS..=MAX_NS).contains(&t) {
+        return;
+    }
+    let (c, n) = canon(t);
+    let _ = crate::core::guard(move || {
+        let d = Duration::from_parts(c, n);
+        let a = (d.decompose(), d.to_seconds(), d.total_nanoseconds(), d.try_truncated_nanoseconds().ok(), d.to_parts(), d.signum(), d.is_negative());
+        let b = (d.abs(), -d, d + Duration::ZERO, d * 1, d == d, d.cmp(&Duration::ZERO), d.floor(hifitime::Unit::Second * 1), d.round(hifitime::Unit::Day * 1));
+        let f = if (h >> 50) % 4 == 0 { format!("{d}").len() } else { 0 };
+        let u = (d.to_unit(hifitime::Unit::Day), d.to_unit(hifitime::Unit::Century), d.subdivision(hifitime::Unit::Hour));
+        std::hint::black_box((a, b, f, u));
+    });
 }
 
 /// Known finding F1: `total_nanoseconds()` reads an operand with centuries < -1 as c*NPC - ns.
